@@ -44,8 +44,22 @@ def pin_case(draw):
         a['p'] = draw(st.one_of(st.integers(3, 12), st.sampled_from([list(p) for p in PAIRS if p[0] > p[1]]),
                                 st.sampled_from([1.5, 2.5, 3.5, 1.25])))
     if name == 'power':
-        p, q = draw(st.sampled_from(PAIRS + [(2, 1), (3, 1), (4, 1), (5, 1), (6, 1)]))
-        a['p'], a['q'] = int(p), int(q)
+        PQ = PAIRS + [(2, 1), (3, 1), (4, 1), (5, 1), (6, 1)]
+        mode = draw(st.sampled_from(['scalar', 'vector', 'rows', 'rows', 'cols']))
+        if mode in ('rows', 'cols'):
+            k = 4                                   # 2 x 2 argument, exponents per row (2,1) or per column (2,)
+            M = [detmodel._row(draw, m) for _ in range(k)]
+            target = [draw(st.sampled_from(VALS)) for _ in range(k)]
+            pq = [draw(st.sampled_from(PQ)) for _ in range(2)]
+            a['shape2'] = [2, 2]
+            a['pshape'] = [2, 1] if mode == 'rows' else [2]
+            a['p'], a['q'] = [int(v[0]) for v in pq], [int(v[1]) for v in pq]
+        elif mode == 'vector' and k > 1:
+            pq = [draw(st.sampled_from(PQ)) for _ in range(k)]
+            a['p'], a['q'] = [int(v[0]) for v in pq], [int(v[1]) for v in pq]
+        else:
+            p, q = draw(st.sampled_from(PQ))
+            a['p'], a['q'] = int(p), int(q)
     if name == 'gmean':
         a['beta'] = [draw(st.integers(1, 5)) for _ in range(k)]
     if name == 'quad':
@@ -237,7 +251,7 @@ class C07(Prop):
             if abs(val - expect) > tol * (1 + abs(expect)):
                 return Outcome.fail('atom_value:%s' % a['atom'],
                                     'optimum %.9g but the closed form of %s at the pinned argument is %.9g (params %s)' % (
-                                        val, a['atom'], expect, {k: a[k] for k in ('p', 'q', 'beta', 'kappa') if k in a}), labels)
+                                        val, a['atom'], expect, {k: a[k] for k in ('p', 'q', 'beta', 'kappa', 'pshape') if k in a}), labels)
             return Outcome.ok(True, labels)
         if mode == 'milp':
             ref, why = brute_force_milp(case)
@@ -283,6 +297,9 @@ class C07(Prop):
                         hi = mid
                 if lo > 0:
                     pts.append(x0 + lo * d)
+        oa = case['obj'].get('atom')
+        if oa is not None:
+            pts = [xp for xp in pts if detmodel.in_domain(oa, xp, 1e-9)]     # the objective atom has a domain too
         better = False
         for xp in pts:
             ov = detmodel.objective_value(case, xp)
